@@ -16,6 +16,7 @@ func (ex *Exec) doCall(st *State, fr *Frame, c *ssa.CallCommon, dst ssa.Value, p
 		args = append(args, ex.val(st, fr, a))
 	}
 	fnv := ex.val(st, fr, c.Value)
+	ex.curCallArgs = args
 	gsAfter := ex.ghostSets(st, fr, c, "before")
 	pushed := ex.callValue(st, fr, c, fnv, args, dst, pos, false, work)
 	if len(gsAfter) > 0 {
@@ -75,6 +76,9 @@ func (ex *Exec) runGhostSetsRes(st *State, fr *Frame, sets []*GhostSet, sig *typ
 		env := ex.loopEnv(st, fr)
 		if sig != nil && res != nil {
 			env.bindResults(sig, res)
+		}
+		for i, a := range ex.curCallArgs {
+			env.vars[fmt.Sprintf("arg%d", i)] = TV{a, nil}
 		}
 		var vals []TV
 		for _, e := range gs.Exprs {
@@ -265,7 +269,8 @@ func carriesCallback(args []Value) bool {
 		case IfaceV:
 			if x.Tag.IsInt() {
 				if t := tags.byTag[x.Tag.Int.Int64()]; t != nil {
-					if isRepoClass(typeName(t)) || isRepoClass(strings.TrimPrefix(typeName(t), "*")) {
+					// a repository type with methods (or a pointer to one) can be called back
+					if (isRepoClass(typeName(t)) || isRepoClass(strings.TrimPrefix(typeName(t), "*"))) && (pointerShaped(t) || types.NewMethodSet(t).Len() > 0) {
 						return true
 					}
 				}
@@ -291,13 +296,13 @@ func (ex *Exec) escapeArgs(st *State, args []Value) {
 	for _, a := range args {
 		switch x := a.(type) {
 		case *PtrV:
-			if x.Root == RObj && isRepoClass(x.Class) {
+			if x.Root == RObj {
 				add(x.Class)
 			}
 		case IfaceV:
 			if x.Tag.IsInt() {
 				if t := tags.byTag[x.Tag.Int.Int64()]; t != nil {
-					if pt, ok := under(t).(*types.Pointer); ok && isRepoClass(classOf(pt.Elem())) {
+					if pt, ok := under(t).(*types.Pointer); ok {
 						add(classOf(pt.Elem()))
 					}
 				}
@@ -359,12 +364,29 @@ func (ex *Exec) applyContract(st *State, fr *Frame, sp *FuncSpec, fn *ssa.Functi
 					st.havocClass(class)
 				}
 			}
-			st.HavPrefix = append(st.HavPrefix, e+".")
+			st.HavPrefix = append(st.HavPrefix, e+".", e)
 		}
 	}
 	// frame
 	if sp.ModAll {
+		before := map[string]*Term{}
+		if sp.PreservesHeld {
+			for _, h := range st.Held {
+				if ts := ex.Specs.Types[h.Type]; ts != nil {
+					for f := range ts.Guarded {
+						for class := range classSorts {
+							if class == h.Type+"."+f || strings.HasPrefix(class, h.Type+"."+f+"@") || strings.HasPrefix(class, h.Type+"."+f+".") {
+								before[class] = st.heapGet(class, classSorts[class])
+							}
+						}
+					}
+				}
+			}
+		}
 		ex.havocAll(st, true)
+		if sp.PreservesHeld {
+			ex.restoreHeld(st, before)
+		}
 		if top := ex.topFrame(st); top.Spec != nil && !top.Spec.ModAll && ex.pure == nil {
 			ex.emit(st, "frame", "call:*@"+sp.Name, False, pos, top.Spec.Props)
 		}
